@@ -133,10 +133,10 @@ CHECKS = {
 NOT_YET = {}
 
 
-SUITE_PROPS = ("C01", "C03", "C05", "C06", "C07", "C10", "C11", "C17")
+SUITE_PROPS = ("C01", "C03", "C05", "C06", "C07", "C09", "C10", "C11", "C17")
 for _p in SUITE_PROPS:
     CHECKS[_p]["technique"] += "; the repository's own test-suite run with the hooks on and every recorded execution validated by TLC against the monitor half of the composition System.tla (SystemTrace)"
-    CHECKS[_p]["text"] += " In addition the whole test-suite of the repository is built from the working tree with the hooks on and run once with the environment recorder; each of the about 125 test processes that writes frames is one execution (about 33 000 frames, sidecar lines and emitter steps in the order the process passed the hook points), and TLC evaluates every guard of System.tla's monitor (numbering, thread / session / run / job / task life cycles, truth before sidecar, recorded before published, no two mutating executions at once, side-effects frame after its tool finished, a snapshot holds every logged frame of its stream) at every step; the design half of System.tla (two runs, a compaction job and a task on one thread contending for the workspace permit) is model-checked with the same guards, incl. liveness."
+    CHECKS[_p]["text"] += " In addition the whole test-suite of the repository is built from the working tree with the hooks on and run once with the environment recorder; each of the about 125 test processes that writes frames is one execution (about 33 000 frames, sidecar lines and emitter steps in the order the process passed the hook points), and TLC evaluates every guard of System.tla's monitor (numbering, thread / session / run / job / task life cycles, truth before sidecar, recorded before published, no two mutating executions at once, side-effects frame after its tool finished, a snapshot holds every logged frame of its stream, a checkpoint names its cut message by seq and id, a lineage cut lies within the source thread) at every step; the design half of System.tla (two runs, a compaction job and a task on one thread contending for the workspace permit) is model-checked with the same guards, incl. liveness."
     CHECKS[_p]["note"] += " Suite executions: 15 tests that write a stream by hand or drive a layer below the one that writes the opening frame are excused for the one guard they trip (vlib/suite_handmade.json); life-cycle guards are used in their stage-monotone form there (Strict = FALSE)."
 
 
